@@ -25,6 +25,55 @@ CLAIMS = {
         "over all objects/pairs, single-use iterator reuse, and accepted-sample = checked-sample. Does NOT decide geometric correctness of the predicates.",
         "DESIGN.md section 3 C02",
     ),
+    "C03": (
+        "lineage dataflow of weighted choices + sampler membership/height rules + operand-interface typing",
+        "Decides that population and weights of every weighted piece choice derive from the same sequence under the same filters, that the "
+        "generic intersection/difference/union samplers test membership in all operands (with the 1 - 1/k multiplicity correction), that planar "
+        "samplers keep the region's height, and that sampler code reads only attributes every Region has. Does NOT decide uniformity statistically.",
+        "DESIGN.md section 3 C03",
+    ),
+    "C04": (
+        "approximation-kind abstract domain (OVER/UNDER/DIST by provenance) over every early return of the overlap/containment tests",
+        "Decides shortcut polarity: every constant early return of MeshVolumeRegion.intersects/containsObject, footprint containment and the "
+        "planar-box fast paths is dominated by a guard whose provenance-classified quantities prove that answer; fall-through paths end in the "
+        "exhaustive computation. Does NOT decide numerical agreement with exact geometry.",
+        "DESIGN.md section 3 C04",
+    ),
+    "C05": (
+        "forwarding analysis of lifting decorators, G3 reconstruction of evaluateInner, identity table, interval-arithmetic LinForm table, None-flow",
+        "Decides that lifting helpers forward the complete argument list, that evaluateInner rebuilds objects through their own constructor, that "
+        "algebraic shortcuts are true identities guarded by non-laziness, that support intervals follow interval arithmetic, never compute on "
+        "unknown bounds and use only monotone wrappers from an allow-list. Does NOT decide value equality with CPython on all expression trees.",
+        "DESIGN.md section 3 C05",
+    ),
+    "C06": (
+        "manual<->code table extraction (RST reader + path enumeration of specifier functions), def-use of helpers, finite abstract interpretation of the priority fold",
+        "Decides that every built-in specifier's (property, priority, modifies, dependencies) equals the reference manual, that declared "
+        "dependencies cover what helpers read, that error paths of resolution are well-formed, and that the priority fold is order independent "
+        "over an abstract domain of priorities. Does NOT decide the values computed by helpers.",
+        "DESIGN.md section 3 C06",
+    ),
+    "C07": (
+        "LinForm template of the six directional specifiers, name-derived sign table of corners, compiler->veneer and grammar->AST binding, parent-frame def-use",
+        "Decides the bounding-box gap formula of left/right/ahead/behind/above/below as linear forms, the signs of all side/corner properties, "
+        "that each emitted runtime call binds to its veneer definition, that grammar actions bind to syntax-node fields, and that facing-family "
+        "helpers read parentOrientation. Does NOT decide frame correctness of beyond/offset along/following numerically.",
+        "DESIGN.md section 3 C07",
+    ),
+    "C08": (
+        "abstract interpretation over ast.cmpop classes, bound-polarity tags from supportInterval, subset derivation grammar for conditionTo, loop-variant liveness",
+        "Decides that only <,<=,== yield bounds, that erosion uses LOWER-UPPER and growth UPPER bounds, that every conditioned position draws from "
+        "the base restricted by intersections only (at the base's height), that voxel retry loops vary what they retry, that voxel dilation has "
+        "room and consistent units, and that unknown bounds are not used arithmetically. Does NOT decide geometric over-approximation numerically.",
+        "DESIGN.md section 3 C08",
+    ),
+    "C16": (
+        "dispatch/override/typing rules over the whole Region hierarchy (G1, G2, G3), z-propagation, identity table",
+        "Decides double-dispatch hygiene (triedReversed forwarding, safe reversed retries), override signature agreement, unresolved names/attributes, "
+        "operand-interface conformance, height propagation of planar results, reconstruction of lazy regions, nearest-hit selection and the "
+        "identity/annihilator laws of everywhere/nowhere. Does NOT decide mesh booleans or distances numerically.",
+        "DESIGN.md section 3 C16",
+    ),
 }
 
 NOT_YET = {}
